@@ -7,7 +7,8 @@ PROP = 'C18'
 TRACE_MODULE = 'C18Trace.tla'
 RULE = ('records = byte strings: all 256 one-byte strings (every table entry of both tables), all two-byte strings '
         '(thorough) or a seeded 1/32 sample (quick), structured lengths 0..64 x patterns, seeded-random strings up to '
-        '4 KiB; distinct = distinct byte strings of length >= 1')
+        '4 KiB; crafted strings (up to 64 KiB + 37) whose internal register is exactly zero at every power-of-two boundary; both byte orders also '
+        'named by run-time string objects; distinct = distinct byte strings of length >= 1')
 ASSUMPTIONS = ['TonCrc bit-serial definitions anchored on the catalogue check values for "123456789" (ASSUME in MC_Crc)',
                'TLC/SANY 1.8.0 and CommunityModules Bitwise xor']
 EXHAUSTIVE = {'quick': False, 'thorough': False}
@@ -20,10 +21,48 @@ def model_checks(tier):
     return [dict(name='crc_algebra', module='MC_Crc.tla', cfg=cfg, workers=8)]
 
 
-def rec(data):
+def rec(data, dyn=False):
     data = bytes(data)
-    return {'op': 'crc', 'data': list(data), 'c16': list(crc16(data)), 'c32le': list(crc32c(data)),
-            'c32be': list(crc32c(data, 'big'))}
+    r = {'op': 'crc', 'data': list(data), 'c16': list(crc16(data)), 'c32le': list(crc32c(data)),
+         'c32be': list(crc32c(data, 'big'))}
+    if dyn:
+        # the byte order named by string objects created at run time (equal to, but not identical with, the literals)
+        r['be2'] = list(crc32c(data, ''.join(['b', 'i', 'g'])))
+        r['le2'] = list(crc32c(data, b'little'.decode()))
+    return r
+
+
+def _raw32(data, reg=0xFFFFFFFF):
+    """input construction only (never a verdict): the raw CRC-32C register after `data`"""
+    for b in data:
+        reg ^= b
+        for _ in range(8):
+            reg = (reg >> 1) ^ (0x82F63B78 if reg & 1 else 0)
+    return reg
+
+
+def _raw16(data, reg=0):
+    for b in data:
+        reg ^= b << 8
+        for _ in range(8):
+            reg = ((reg << 1) ^ 0x1021 if reg & 0x8000 else reg << 1) & 0xFFFF
+    return reg
+
+
+def register_zero_input(rng, boundaries, tail, which):
+    """a byte string whose internal register is exactly zero after `b` bytes for every b in boundaries (feeding a register its own
+    value zeroes it): implementations that process the data in blocks, or treat a zero register as "start", slip here"""
+    data = bytearray()
+    r32, r16 = 0xFFFFFFFF, 0
+    for b in boundaries:
+        w = 4 if which == 32 else 2
+        fill = bytes(rng.getrandbits(8) for _ in range(b - w - len(data)))
+        data += fill
+        r32, r16 = _raw32(fill, r32), _raw16(fill, r16)
+        own = r32.to_bytes(4, 'little') if which == 32 else r16.to_bytes(2, 'big')
+        data += own
+        r32, r16 = _raw32(own, r32), _raw16(own, r16)
+    return bytes(data) + bytes(rng.getrandbits(8) for _ in range(tail))
 
 
 def generate(tier, seed, ctx):
@@ -44,6 +83,14 @@ def generate(tier, seed, ctx):
         out.append(rec(bytes(rng.getrandbits(8) for _ in range(n))))
     for n in ([4096, 2049] if tier == 'quick' else [4096, 4095, 2049, 3000, 1025, 4000]):
         out.append(rec(bytes(rng.getrandbits(8) for _ in range(n))))
+    for r in rng.sample(out, 40):
+        r.update(rec(r['data'], dyn=True))
+    # registers passing through zero at block boundaries (every power of two up to 64 KiB, and just around them)
+    pw = [2 ** k for k in range(3, 17)]
+    out.append(rec(register_zero_input(rng, pw, 37, 32), dyn=True))
+    out.append(rec(register_zero_input(rng, pw, 37, 16)))
+    out.append(rec(register_zero_input(rng, [k * 4096 for k in range(1, 9)], 5, 32)))
+    out.append(rec(register_zero_input(rng, [1000, 10000, 50000] if tier == 'quick' else [1000, 10000, 100000], 1, 32)))
     return out
 
 
